@@ -276,9 +276,10 @@ CLAIMED = {
         'select_pool_from_worker_type / select_cheapest_price_pool (loop invariant: every pool skipped so far mismatched cloud/preemptible/label[/worker type] or could not satisfy; cheapest: the choice so far is such a grant): the selected pool equals the request in cloud, preemptible, label and worker type and its grant covers the request; None only if no matching configured pool can satisfy it. '
         'Job-private path (JobPrivateInstanceManagerConfig.convert_requests_to_resources, select_job_private, machine-type dispatchers): None iff other cloud or storage above the cloud maximum, else the whole machine of the named type and storage >= request. select_inst_coll dispatches on worker_type/machine_type. '
         '_create_jobs resource section: the parsed cpu/memory/storage values and cloud/label/preemptible/worker type are what is passed to select_inst_coll, the job is rejected after selection exactly when it returned None, and accepted jobs carry the selected grant. '
+        'Job schema clean-up (the deprecated spelling of the storage request): the pvc_size section of validate.handle_deprecated_job_keys, executed on the real source with the job dict under reference semantics, once per key-presence shape (pvc_size / resources / resources.storage / another resource key; all values symbolic): an accepted pvc_size IS resources.storage afterwards, every other resource request is kept and none invented, the deprecated key is gone, both spellings at once are refused, ValidationError only when the storage schema entry rejects the value; syntactic obligations: the rest of that function and handle_job_backwards_compatibility never touch resources, validate_and_clean_jobs cleans then schema-checks the very dict that stays in the list, validators never write into what they check, every caller of _create_jobs passes the list it validated. '
         'Helpers: is_valid_cores_mcpu (valid iff 250*2^k below 2^61 mcpu; for all ints only valid => positive multiple of 250), round_up_division, gcp/azure requested_to_actual_storage_bytes (None iff above the maximum, >= request, 10 GiB minimum), round_storage_bytes_to_gib, requested_storage_bytes_to_actual_storage_gib, per-cloud adjust_cores_for_memory_request and cores_mcpu_to_memory_bytes under the relative-error float model (memory of the adjusted cores >= request for every core count a worker can hold; cores never decrease), worker_memory_per_core_mib, valid_machine_types, memory_to_worker_type. '
         'BOUNDED, not proved: adjust_cores_for_packability (math.log2 / 2**power: exhaustive over cores_in_mcpu in [1, 512000] on the real function; larger inputs by an assumed monotonicity argument) and exactness of cores_mcpu_to_memory_bytes on packable core counts (complete enumeration, 66 cases); convert_requests_to_resources and everything above it use these two as callee contracts.',
-        note=COMMON_NOTE + 'Assumed: pool configuration well-formed (cloud gcp/azure, worker type in the cloud\'s table, 1 <= worker_cores <= 256 - the driver validates against possible_cores_from_worker_type, syntactic obligation); specification data for per-core memory, disk maxima and the 10 GiB minimum (real machine tables checked to agree); IEEE-754 relative-error model without overflow; 64-bit model of the bit trick below 2^61; C25 parser contracts; prices opaque (which satisfying pool is cheapest is not decided); the front end is verified on the resource section of the per-job loop body plus syntactic obligations on the statements around it. In this fork convert_requests_to_resources has no local-ssd/data-disk comparison, so storage only has the per-cloud maximum. machine_type == "" ends in an AssertionError (500), allowed as a rejection.',
+        note=COMMON_NOTE + 'Assumed: pool configuration well-formed (cloud gcp/azure, worker type in the cloud\'s table, 1 <= worker_cores <= 256 - the driver validates against possible_cores_from_worker_type, syntactic obligation); specification data for per-core memory, disk maxima and the 10 GiB minimum (real machine tables checked to agree); IEEE-754 relative-error model without overflow; 64-bit model of the bit trick below 2^61; C25 parser contracts; prices opaque (which satisfying pool is cheapest is not decided); the front end is verified on the resource section of the per-job loop body plus syntactic obligations on the statements around it. Job dicts are tracked as records with a definite key set: the pvc_size section is verified per key-presence shape (10 shapes; `cpu` stands for every other resource key, job_id/process for every other job key; a `resources: null` body is not a shape - it crashes with TypeError before the schema check, a rejection). select_cheapest_price_pool restructured beyond its loop invariants is decided by the native witness search only (pool orders x price orders rising/falling/mixed). In this fork convert_requests_to_resources has no local-ssd/data-disk comparison, so storage only has the per-cloud maximum. machine_type == "" ends in an AssertionError (500), allowed as a rejection.',
         technique='modular contracts on the real functions (pyvc: callee contracts with Optional results, loop invariants over the pool list, relative-error float model) -> z3; AST obligations for the call-site context; exhaustive native enumeration as bounded stand-in for two float helpers; native replay of every contract on the real modules',
         design_ref='7/C12',
     ),
